@@ -35,6 +35,12 @@ def need_params(f, *names):
             raise AnchorMissing(f"{f.key}: parameter '{n}'")
 
 
+def _empty_row_skip(c, bound) -> bool:
+    """rows of the mapping matrix without any non-zero entry may be skipped as a whole (every term of such a row is 0 x something): the guard `row p of mapping_matrix
+    has a non-zero entry`, however the rows were selected (KEval: Cond 'rowany'); a selection by the SUM of the signed entries is not this guard"""
+    return c.kind == "rowany" and c.args[0] == "mapping_matrix" and Poly.sym(c.args[1]) == bound.get("p")
+
+
 def run(ctx):
     p = ctx.p
     K = KEval(p)
@@ -105,7 +111,7 @@ def run(ctx):
     M = lambda b: Poly.elem("mapping_matrix", b["p"], b["q"])
     if len(out) == 1:
         check_accumulate(ctx, "C13.lin", S, out[0], roles, lambda b: (b["k"], b["q"]), fwd_val(M, "grid_radians", "uv_wavelengths"),
-                         zero_test_operand=M, what="M[p,q] exp(-2 pi i (x u + y v))")
+                         zero_test_operand=M, what="M[p,q] exp(-2 pi i (x u + y v))", allowed_guard=_empty_row_skip)
     else:
         ctx.ob("C13.lin", f.key, None, message=f"expected one returned array, got {out}")
 
@@ -118,7 +124,7 @@ def run(ctx):
     if len(out) == 1:
         check_accumulate(ctx, "C13.lin", S, out[0], roles, lambda b: (b["k"], b["q"]),
                          lambda b: M(b) * (Poly.elem("preloaded_reals", b["p"], b["k"]) + J * Poly.elem("preloaded_imags", b["p"], b["k"])),
-                         zero_test_operand=M, what="M[p,q] (R[p,k] + i Im[p,k])")
+                         zero_test_operand=M, what="M[p,q] (R[p,k] + i Im[p,k])", allowed_guard=_empty_row_skip)
     else:
         ctx.ob("C13.lin", f.key, None, message=f"expected one returned array, got {out}")
 
